@@ -160,7 +160,10 @@ def post_write(run, snap, res, args, kwargs):
         if data != WRITTEN[src]["bytes"]:
             a, b = WRITTEN[src]["bytes"].splitlines(), data.splitlines()
             k = next((i for i, (x, y) in enumerate(zip(a, b)) if x != y), min(len(a), len(b)))
-            run.violate(mon + "[rewrite]", f"rewrite-differs-{fmt}", f"line {k}: first write {a[k][:120] if k < len(a) else None!r}, second write {b[k][:120] if k < len(b) else None!r}",
+            # a whole-number float column holding a negative zero is written '-0', read back as the integer 0 and written '0'
+            negzero = len(a) == len(b) and all(len(x.split(b"\t")) == len(y.split(b"\t")) and all(u == v or (u, v) == (b"-0", b"0") for u, v in zip(x.split(b"\t"), y.split(b"\t")))
+                                               for x, y in zip(a, b))
+            run.violate(mon + "[rewrite]", "rewrite-differs-negative-zero" if negzero else f"rewrite-differs-{fmt}", f"line {k}: first write {a[k][:120] if k < len(a) else None!r}, second write {b[k][:120] if k < len(b) else None!r}",
                         {"fmt": fmt, "first": [x.decode(errors='replace') for x in a[:12]], "second": [x.decode(errors='replace') for x in b[:12]]})
         else:
             run.held(mon + "[rewrite]", f"rewrite:{fmt}")
